@@ -1,8 +1,10 @@
 """C01 - statistical-mechanical species are thermodynamically self-consistent."""
 import ast
+import itertools
 import re
 from fractions import Fraction as Fr
 
+from ..fold import fold_value, fold_num
 from ..nf import Rat, C
 from ..source import Unsupported, AnchorError, docstring, params
 from ..xlate import (Interp, Obj, ListV, Elem, SumV, Raised, RankOrder, DictV, expected_params, FuncRef,
@@ -39,68 +41,88 @@ def val(I, obj, mname, avail):
 # ----------------------------------------------------------------------
 # mode table: every class that can sit in a mode slot or in misc_models
 
-def mode_instances(I, repo):
-    """yield (label, obj, avail args, expected H-U, closed_form?)"""
+def mode_instances(I, repo, suffix='', closed_only=False, only=None):
+    """yield (label, obj, avail args, expected H-U, closed_form?); ``suffix`` names a second set of parameter symbols
+    (a second object of every class), ``closed_only`` stops after the closed-form modes, ``only`` builds one of them"""
     D = I.D
     T, P = D.sym('T'), D.sym('P')
     base = {'T': T, 'P': P}
     out = []
 
-    def mk(qual, name='self', **kw):
-        return Obj(name, repo.cls(qual), **kw)
+    def ctor(qual, **kw):
+        """the object as a user makes it: ClassName(**kw) through the class's own constructor.  The parameters are
+        symbols named after the documented attribute they set (``self.<name>``); what the constructor derives from
+        them and keeps under private names is the class's own business"""
+        ci_ = repo.cls(qual)
+        o_ = I.construct(ci_, [], kw, name='self')
+        if isinstance(o_, Raised):
+            raise Unsupported('%s(%s) raises %s for generic parameters' % (ci_.name, ', '.join(sorted(kw)), o_.exc))
+        return o_
 
-    out.append(('FreeTrans', mk(SM + '.trans.FreeTrans'), base, 1, True))
-    # vibrational models are built by their own constructors from a vector (of any length) of real wavenumbers nu:
-    # what they cache, and under which names, is private
-    nu = Elem(D.sym('nu'))
-    saved_order = I.order
-    I.order = RankOrder({'nu': 1}, const_ranks=True)        # real wavenumbers: nu > 0 while the models are built
-    out.append(('HarmonicVib', I.construct(repo.cls(SM + '.vib.HarmonicVib'), [], {'vib_wavenumbers': nu},
-                                           name='self'), base, 0, True))
-    out.append(('QRRHOVib', I.construct(repo.cls(SM + '.vib.QRRHOVib'), [],
-                                        {'vib_wavenumbers': nu, 'Bav': D.sym('Bav'), 'v0': D.sym('v0')},
-                                        name='self'), base, 0, True))
-    I.order = saved_order
-    out.append(('EinsteinVib', mk(SM + '.vib.EinsteinVib'), base, 0, True))
-    out.append(('DebyeVib', mk(SM + '.vib.DebyeVib'), base, 0, 'debye'))
+    def p(name):
+        return D.sym('self.' + name + suffix)
+
+    def vib(qual, **kw):
+        # vibrational models are built by their own constructors from a vector (of any length) of real wavenumbers
+        # nu: what they cache, and under which names, is private
+        saved_order = I.order
+        I.order = RankOrder({'nu' + suffix: 1}, const_ranks=True)   # real wavenumbers: nu > 0 while they are built
+        try:
+            return ctor(qual, vib_wavenumbers=Elem(D.sym('nu' + suffix)), **kw)
+        finally:
+            I.order = saved_order
+
+    table = [
+        ('FreeTrans', lambda: ctor(SM + '.trans.FreeTrans', n_degrees=p('n_degrees'),
+                                   molecular_weight=p('molecular_weight')), 1, True),
+        ('HarmonicVib', lambda: vib(SM + '.vib.HarmonicVib'), 0, True),
+        ('QRRHOVib', lambda: vib(SM + '.vib.QRRHOVib', Bav=D.sym('Bav' + suffix), v0=D.sym('v0' + suffix)), 0, True),
+        ('EinsteinVib', lambda: ctor(SM + '.vib.EinsteinVib', einstein_temperature=p('einstein_temperature'),
+                                     interaction_energy=p('interaction_energy')), 0, True),
+        ('DebyeVib', lambda: ctor(SM + '.vib.DebyeVib', debye_temperature=p('debye_temperature'),
+                                  interaction_energy=p('interaction_energy')), 0, 'debye')]
     for g in ('monatomic', 'linear', 'nonlinear'):
-        out.append(('RigidRotor[%s]' % g, mk(SM + '.rot.RigidRotor', attrs={'geometry': g},
-                                              vec_attrs=['rot_temperatures']), base, 0, True))
-    out.append(('GroundStateElec', mk(SM + '.elec.GroundStateElec'), base, 0, True))
-    out.append(('EmptyNucl', mk(SM + '.nucl.EmptyNucl'), base, 0, True))
-    out.append(('EmptyMode', mk(SM + '.EmptyMode'), base, 0, True))
-    out.append(('GasPressureAdj', mk('pmutt.empirical.GasPressureAdj'), base, 0, True))
+        table.append(('RigidRotor[%s]' % g,
+                      lambda g=g: ctor(SM + '.rot.RigidRotor', symmetrynumber=p('symmetrynumber'),
+                                       rot_temperatures=Elem(p('rot_temperatures')), geometry=g), 0, True))
+    table += [
+        ('GroundStateElec', lambda: ctor(SM + '.elec.GroundStateElec', potentialenergy=p('potentialenergy'),
+                                         spin=p('spin')), 0, True),
+        ('EmptyNucl', lambda: ctor(SM + '.nucl.EmptyNucl'), 0, True),
+        ('EmptyMode', lambda: ctor(SM + '.EmptyMode'), 0, True),
+        ('GasPressureAdj', lambda: ctor('pmutt.empirical.GasPressureAdj'), 0, True)]
+    for label, make, hu, closed in table:
+        if only is None or only == label:
+            out.append((label, make(), base, hu, closed))
+    if closed_only:
+        return out
     # models that call into other objects: identities only (no derivative through opaque calls)
     rxn = opaque_obj(I, 'rxn', {k: ('T', 'units', 'rev', 'state', 'P') for k in
                                 ('get_delta_E', 'get_delta_H', 'get_H_state', 'get_E_state', 'get_UoRT_state',
                                  'get_HoRT_state', 'get_SoR_state')})
     sp1 = opaque_obj(I, 'surf', {'get_E': ('T', 'units', 'P'), 'get_H': ('T', 'units', 'P')})
     sp2 = opaque_obj(I, 'gas', {'get_E': ('T', 'units', 'P'), 'get_H': ('T', 'units', 'P')})
-    # attributes go in through the public properties (their private storage names are the class's own business)
     rxn.isa.add('Reaction')
     sp1.isa.add('_ModelBase')
     sp2.isa.add('_ModelBase')
-    lsr = mk(SM + '.lsr.LSR')
-    for k_, v_ in (('reaction', rxn), ('surf_species', sp1), ('gas_species', sp2)):
-        set_public(I, lsr, k_, v_)
-    out.append(('LSR', lsr, base, 0, False))
+    out.append(('LSR', ctor(SM + '.lsr.LSR', slope=p('slope'), intercept=p('intercept'), reaction=rxn,
+                            surf_species=sp1, gas_species=sp2), base, 0, False))
     rxn2 = opaque_obj(I, 'rxn2', {k: ('T', 'units', 'P') for k in ('get_delta_E', 'get_delta_H')})
     rxn2.isa.add('Reaction')
-    xlsr = mk(SM + '.lsr.ExtendedLSR', attrs={'slopes': ListV([D.sym('m0'), D.sym('m1')])})
-    for k_, v_ in (('reactions', ListV([rxn, rxn2])), ('surf_species', ListV([sp1, sp2])),
-                   ('gas_species', ListV([sp2, sp1]))):
-        set_public(I, xlsr, k_, v_)
-    out.append(('ExtendedLSR', xlsr, base, 0, False))
+    out.append(('ExtendedLSR', ctor(SM + '.lsr.ExtendedLSR', slopes=ListV([D.sym('m0'), D.sym('m1')]),
+                                    intercept=p('intercept'), reactions=ListV([rxn, rxn2]),
+                                    surf_species=ListV([sp1, sp2]), gas_species=ListV([sp2, sp1])),
+                base, 0, False))
     x = D.sym('x')
     cov = I.construct(repo.cls('pmutt.mixture.cov.PiecewiseCovEffect'), [],
                       {'name_i': 'A', 'name_j': 'B', 'intervals': ListV([C(0), D.sym('b1')]),
                        'slopes': ListV([D.sym('k0'), D.sym('k1')])}, name='self')
     out.append(('PiecewiseCovEffect', cov, {'T': T, 'P': P, 'x': x}, 0, False))
-    refs = mk('pmutt.empirical.references.References',
-              attrs={'offset': DictV({'A': D.sym('offA'), 'B': D.sym('offB')})})
+    refs = ctor('pmutt.empirical.references.References', offset=DictV({'A': D.sym('offA'), 'B': D.sym('offB')}),
+                T_ref=p('T_ref'))
     out.append(('References', refs, {'T': T, 'P': P, 'descriptors': DictV({'A': D.sym('nA'), 'B': D.sym('nB')})},
                 'refs', False))
-    bep = mk('pmutt.reaction.bep.BEP', attrs={'descriptor': 'delta_H'})
+    bep = ctor('pmutt.reaction.bep.BEP', slope=p('slope'), intercept=p('intercept'), descriptor='delta_H')
     out.append(('BEP', bep, {'T': T, 'P': P, 'reaction': rxn}, 'bep', False))
     return out
 
@@ -434,6 +456,66 @@ def debye(run, repo, I, store):
 
 
 # ----------------------------------------------------------------------
+# nothing is remembered between calls, objects or temperatures
+
+def hidden_state(run, repo, I, store):
+    """A value a mode reports is a function of ITS parameters and of the T, P it is asked at - not of what was
+    evaluated before in the same process.  After the sweep over the first object of every closed-form class (in the
+    interpreter ``I``, which keeps everything the program keeps: class-level and module-level containers, memo
+    dictionaries, cached attributes) a SECOND object of the class with parameters of its own is evaluated at the same
+    T, P and at a second T2, P2, the first object is evaluated at T2, P2, and then once more at T, P.  Each value must
+    be what a process that has evaluated nothing else reports for that object and those conditions (a fresh
+    interpreter per object and condition: the reference shares nothing)."""
+    D = I.D
+    T, P, T2, P2 = D.sym('T'), D.sym('P'), D.sym('T2'), D.sym('P2')
+    conds = (('same T, P', {'T': 'T', 'P': 'P'}), ('second T, P', {'T': 'T2', 'P': 'P2'}))
+    quantities = ('q',) + QUANT
+    second = {lab: ob for lab, ob, _, _, _ in mode_instances(I, repo, suffix='#2', closed_only=True)}
+    n = 0
+
+    def fresh(label, suffix, cond):
+        J = Interp(repo, order=RankOrder({'x': 1, 'b1': 2}, const_ranks=True))
+        ob = mode_instances(J, repo, suffix=suffix, closed_only=True, only=label)[0][1]
+        kw = {k: J.D.sym(v) for k, v in cond.items()}
+        return {q: show(val(J, ob, 'get_' + q, kw), 4000) for q in quantities}
+
+    plan = []
+    for label in second:
+        plan.append((label, 'second object', second[label], '#2', conds[0]))
+    for label in second:
+        plan.append((label, 'second object', second[label], '#2', conds[1]))
+    for label in second:
+        plan.append((label, 'first object', store[label][0], '', conds[1]))
+    for label, which, ob, suffix, (cname, cond) in plan:
+        want = fresh(label, suffix, cond)
+        kw = {k: D.sym(v) for k, v in cond.items()}
+        for q in quantities:
+            got = val(I, ob, 'get_' + q, kw)
+            owner, fn = repo.find_method(ob.ci, 'get_' + q)
+            run.check(show(got, 4000) == want[q], 'EFFECT.state', '%s.get_%s' % (label, q),
+                      '%s, %s' % (which, cname),
+                      'the value depends on what was evaluated before: get_%s of the %s of this class at %s, asked '
+                      'after other objects / conditions were evaluated in the same process, is %s; the same object '
+                      'asked first reports %s (something is remembered between calls, objects or temperatures - a '
+                      'memo or class-level container whose key does not hold everything the value depends on)'
+                      % (q, which, cname, show(got, 160), want[q][:160]), owner.module, fn,
+                      sample='%s: %s at %s == the value in a fresh process' % (label, which, cname)
+                      if q == 'SoR' else None)
+            n += 1
+    # ... and the first object asked again at T, P still reports what it reported in the first sweep
+    for label in second:
+        ob, v, meta = store[label]
+        for q in QUANT:
+            got = val(I, ob, 'get_' + q, {'T': T, 'P': P})
+            owner, fn = meta[q]
+            run.check(same(got, v[q]), 'EFFECT.state', '%s.get_%s' % (label, q), 'first object again',
+                      'get_%s of the same object at the same T, P is %s after other objects and temperatures were '
+                      'evaluated, it was %s before' % (q, show(got, 160), show(v[q], 160)), owner.module, fn)
+            n += 1
+    return n
+
+
+# ----------------------------------------------------------------------
 # aggregation over modes
 
 MODE_ATTRS = ('trans_model', 'vib_model', 'rot_model', 'elec_model', 'nucl_model')
@@ -530,6 +612,19 @@ def aggregation(run, repo):
                           % (op, show(total, 300)), owner.module, fn)
                 n += 2
                 if references:
+                    # the options are crossed, not varied one at a time: the breakdown asked for WITH the references
+                    # switched off lists the neutral element in their place (and still adds up to the total)
+                    verbose_off = I.call_method(sp, mname, [], dict(kw, verbose=True, use_references=False))
+                    exp_off = list(exp)
+                    exp_off[len(MODE_ATTRS)] = ident
+                    ok = isinstance(verbose_off, ListV) and len(verbose_off) == len(exp_off) and \
+                        all(same(a, b) for a, b in zip(verbose_off.items, exp_off))
+                    run.check(ok, 'AGG.verbose', 'StatMech.' + mname, key + ' use_references=False',
+                              'verbose form with use_references=False is not [trans, vib, rot, elec, nucl, %s, '
+                              'misc...]: the references were switched off, their entry must be the neutral element '
+                              'and the list must add up to the total reported without verbose; got %s'
+                              % (show(ident), show(verbose_off, 300)), owner.module, fn)
+                    n += 1
                     off = I.call_method(sp, mname, [], dict(kw, use_references=False))
                     I2 = Interp(repo)
                     sp2, _ = build(I2, False, misc)
@@ -538,6 +633,41 @@ def aggregation(run, repo):
                               'use_references=False does not give the value of the same species without '
                               'references', owner.module, fn)
                     n += 1
+        if run.tier == 'thorough':
+            # the full cross product of the options of get_quantity on one species with references and an attached
+            # model (the quick tier crosses verbose with use_references only)
+            for use_refs in (True, False):
+                for zpe in (None, True, False):
+                    for extra in ({}, {'raise_error': False, 'raise_warning': False}):
+                        I = Interp(repo)
+                        D = I.D
+                        T, P = D.sym('T'), D.sym('P')
+                        sp, modes = build(I, 'elements', 1, mode_params=('T', 'P', 'include_ZPE'))
+                        kw = {'T': T, 'P': P}
+                        if zpe is not None:
+                            kw['include_ZPE'] = zpe
+                        exp = [val(I, modes[a], mname, kw) for a in MODE_ATTRS]
+                        exp.append(val(I, sp.attrs['references'], mname,
+                                       {'descriptors': sp.attrs['elements'], 'T': T}) if use_refs else ident)
+                        exp.extend(val(I, mm_, mname, kw) for mm_ in sp.attrs['misc_models'].items)
+                        agg = ident
+                        for e in exp:
+                            agg = I.binop('*' if op == 'prod' else '+', agg, e)
+                        key = 'options use_references=%s include_ZPE=%s%s' % (
+                            use_refs, {None: 'not given'}.get(zpe, zpe), ' raise_error=False' if extra else '')
+                        call_kw = dict(kw, use_references=use_refs, **extra)
+                        got_v = I.call_method(sp, mname, [], dict(call_kw, verbose=True))
+                        got_t = I.call_method(sp, mname, [], dict(call_kw, verbose=False))
+                        ok = isinstance(got_v, ListV) and len(got_v) == len(exp) and \
+                            all(same(a, b) for a, b in zip(got_v.items, exp))
+                        run.check(ok, 'AGG.verbose', 'StatMech.' + mname, key,
+                                  'verbose form under these options is not [trans, vib, rot, elec, nucl, references '
+                                  '(neutral element when switched off), misc] each evaluated with the options given: '
+                                  'got %s' % show(got_v, 300), owner.module, fn)
+                        run.check(same(got_t, agg), 'AGG.total', 'StatMech.' + mname, key,
+                                  'species total under these options is not the %s of the contributions: %s'
+                                  % (op, show(got_t, 300)), owner.module, fn)
+                        n += 2
         # per-species keyword block is routed to this species only
         I = Interp(repo)
         D = I.D
@@ -675,7 +805,10 @@ def imaginary_counts(run, repo):
     (a second imaginary entry, a real mode that happens to have the substitute's value).  Observed through the public
     getters only: each is the sum (q: the product) over the modes that count of the value of a one-mode model."""
     n = 0
-    ranks = {'w_real': 5, 'w_imag': -5, 'w_imag2': -7, 'w_sub': 3}
+    # every pair of values a comparison inside the filter could see comes in every order the property allows: real
+    # modes above, EQUAL TO and BELOW the substitute (a soft real mode of 20 1/cm next to a substitute of 50 1/cm is
+    # still a real mode and counts as it is), imaginary ones below zero
+    ranks = {'w_real': 5, 'w_imag': -5, 'w_imag2': -7, 'w_sub': 3, 'w_low': 1, 'w_low2': 2}
     for cname in ('HarmonicVib', 'QRRHOVib'):
         ci = repo.cls(SM + '.vib.' + cname)
         owner, fn = repo.find_method(ci, 'vib_wavenumbers.setter')
@@ -685,7 +818,11 @@ def imaginary_counts(run, repo):
                 ('[imaginary, imaginary, real]', ('w_imag', 'w_imag2', 'w_real'), ('w_sub', 'w_sub', 'w_real'),
                  ('w_real',)),
                 ('[real equal to the substitute, imaginary]', ('w_sub', 'w_imag'), ('w_sub', 'w_sub'), ('w_sub',)),
-                ('[imaginary, real equal to the substitute]', ('w_imag', 'w_sub'), ('w_sub', 'w_sub'), ('w_sub',))):
+                ('[imaginary, real equal to the substitute]', ('w_imag', 'w_sub'), ('w_sub', 'w_sub'), ('w_sub',)),
+                ('[real below the substitute, imaginary, real]', ('w_low', 'w_imag', 'w_real'),
+                 ('w_low', 'w_sub', 'w_real'), ('w_low', 'w_real')),
+                ('[real, real below the substitute, real below the substitute]', ('w_real', 'w_low2', 'w_low'),
+                 ('w_real', 'w_low2', 'w_low'), ('w_real', 'w_low2', 'w_low'))):
             for sub_given in (True, False):
                 I = Interp(repo, order=RankOrder(dict(ranks), const_ranks=True))
                 D = I.D
@@ -715,7 +852,8 @@ def imaginary_counts(run, repo):
                         want = I.binop('*' if q == 'q' else '+', want, I.call_method(one, 'get_' + q, [], dict(kw)))
                     o2, f2 = repo.find_method(ci, 'get_' + q)
                     run.check(same(got, want), 'ORDER.filter', cname + '.vib_wavenumbers', key + ' ' + q,
-                              'every imaginary entry must be %s, whatever else the vector holds: get_%s of a model '
+                              'every real entry must count as it is (also one below the substitute) and every '
+                              'imaginary entry must be %s, whatever else the vector holds: get_%s of a model '
                               'built from %s is %s, expected the %s of the one-mode values over %s'
                               % ('replaced by the substitute' if sub_given else 'dropped', q, vname, show(got, 160),
                                  'product' if q == 'q' else 'sum', show(ListV(valid))), owner.module, fn,
@@ -802,19 +940,21 @@ def cached_fields(run, repo):
     I = Interp(repo)
     D = I.D
     s1, s2 = D.sym('spin1'), D.sym('spin2')
-    o = Obj('self', ci)
-    I.call_method(o, '__init__', [], {'potentialenergy': D.sym('E0'), 'spin': s1})
+    o = I.construct(ci, [], {'potentialenergy': D.sym('E0'), 'spin': s1}, name='self')
+    if isinstance(o, Raised):
+        raise Unsupported('GroundStateElec(potentialenergy, spin) raises %s for a generic spin' % o.exc)
     owner, fn = repo.find_method(ci, 'get_SoR')
     S1 = I.call_method(o, 'get_SoR', [], {})
     run.check(same(S1, D.ln(2 * s1 + 1)), 'REF.degeneracy', 'GroundStateElec.get_SoR', 'S=ln(2*spin+1)',
               'electronic entropy is %s, expected ln(2*spin+1)' % show(S1), owner.module, fn,
               sample='GroundStateElec(spin=s).get_SoR() == ln(2s+1)')
-    I.call_method(o, 'spin.setter', [s2], {})
+    set_public(I, o, 'spin', s2)        # o.spin = s2, through the property setter when the class has one
     S2 = I.call_method(o, 'get_SoR', [], {})
     run.check(same(S2, D.ln(2 * s2 + 1)), 'PATH.refresh', 'GroundStateElec.get_SoR', 'spin-reassigned',
               'after assigning a new spin the entropy is %s (stale degeneracy)' % show(S2), owner.module, fn)
     n += 2
-    run.fn(ci.qual + '.spin.setter')
+    if repo.find_method(ci, 'spin.setter', missing_ok=True):
+        run.fn(ci.qual + '.spin.setter')
     return n
 
 
@@ -835,10 +975,9 @@ def symmetry_labels(run, repo):
     run.fn(owner.qual + '.__init__')
     for label, num in rows:
         I = Interp(repo)
-        o = Obj('self', ci)
-        r = I.call_method(o, '__init__', [], {'symmetrynumber': label,
-                                              'rot_temperatures': ListV([I.D.sym('th')]), 'geometry': 'linear'})
-        got = o.attrs.get('symmetrynumber')
+        r = I.construct(ci, [], {'symmetrynumber': label, 'rot_temperatures': ListV([I.D.sym('th')]),
+                                 'geometry': 'linear'}, name='self')
+        got = None if isinstance(r, Raised) else get_public(I, r, 'symmetrynumber')     # as a user reads it
         ok = not isinstance(r, Raised) and isinstance(got, Rat) and got.is_const() and \
             got.const_value() == int(num)
         run.check(ok, 'TABLE.pointgroup', 'RigidRotor.__init__', 'label:' + label,
@@ -882,15 +1021,52 @@ def geometry_from_atoms(run, repo):
     n = 0
 
     def atoms_obj(I, natoms, angles):
-        o = Obj('atoms', closed=True)
-        o.opaque_methods['__len__'] = lambda I_, ob, a, k: C(natoms)
-        calls = []
+        """an ase.Atoms as far as angles go: the angle at atom j of every triple i < j < k (the triples in the order
+        itertools.combinations lists them), asked one at a time (get_angle) or all at once (get_angles - in ASE
+        get_angle(i, j, k) IS get_angles([[i, j, k]])[0]).  Answers go by the indices asked, not by the order of the
+        calls.  The object is open: another accessor of a structure is outside what is modelled here and ends the
+        analysis, it is not an AttributeError"""
+        o = Obj('atoms')
+        triples = list(itertools.combinations(range(natoms), 3))
+        table = {t: angles[i] if i < len(angles) else angles[-1] for i, t in enumerate(triples)}
+
+        def index(x):
+            if isinstance(x, Rat) and x.is_const() and x.const_value().denominator == 1:
+                return int(x.const_value())
+            raise Unsupported('index of an atom that is not a number: %s' % show(x))
+
+        def angle_of(idx):
+            key = tuple(index(x) for x in idx)
+            if key not in table:
+                raise Unsupported('angle between atoms %r of a structure of %d atoms: this structure gives the angle '
+                                  'at the middle atom of the triples i < j < k only' % (key, natoms))
+            return C(table[key])
+
+        def no_mic(k):
+            k = dict(k)
+            if k.pop('mic', False) is not False or k:
+                raise Unsupported('Atoms.get_angle(s) with %s' % ', '.join(sorted(k) or ['mic']))
 
         def get_angle(I_, ob, a, k):
-            key = tuple(int(x.const_value()) if not x.iszero() else 0 for x in a[:3])
-            calls.append(key)
-            return C(angles[len(calls) - 1] if len(calls) <= len(angles) else angles[-1])
+            k = dict(k)
+            idx = list(a[:3]) + [k.pop(nm) for nm in ('a1', 'a2', 'a3')[len(a[:3]):] if nm in k]
+            if len(a) > 3 or len(idx) != 3:
+                raise Unsupported('Atoms.get_angle called with %d indices' % len(idx))
+            no_mic(k)
+            return angle_of(idx)
+
+        def get_angles(I_, ob, a, k):
+            k = dict(k)
+            rows = a[0] if a else k.pop('indices', None)
+            if len(a) > 1 or not isinstance(rows, ListV) or not all(isinstance(r_, ListV) and len(r_) == 3
+                                                                     for r_ in rows.items):
+                raise Unsupported('Atoms.get_angles: the indices are not a list of triples')
+            no_mic(k)
+            return ListV([angle_of(r_.items) for r_ in rows.items])
+        o.opaque_methods['__len__'] = lambda I_, ob, a, k: C(natoms)
+        o.opaque_methods['get_global_number_of_atoms'] = lambda I_, ob, a, k: C(natoms)
         o.opaque_methods['get_angle'] = get_angle
+        o.opaque_methods['get_angles'] = get_angles
         return o
     for tol in (None, Fr(1)):
         t = Fr(5) if tol is None else tol
@@ -919,6 +1095,130 @@ def geometry_from_atoms(run, repo):
         n += 1
         run.check(got == want, 'BRANCH.collinear', 'rot.get_geometry_from_atoms', '%d atom(s)' % natoms,
                   'a structure of %d atom(s) is classified %s, expected %s' % (natoms, show(got), want), m, fn)
+    return n
+
+
+# molecules of the bundled G2 set: Hill formula (what ASE writes for mode='hill': C, H, then alphabetical; without
+# carbon all alphabetical) and orders in which the atoms may be listed - as bundled and permuted
+Z_OF = {'H': 1, 'C': 6, 'N': 7, 'O': 8, 'F': 9, 'Na': 11, 'Si': 14, 'S': 16, 'Cl': 17}
+STRUCTURES = (
+    ('H2O', 'H2O', ('O H H', 'H O H')),
+    ('OCHCHO', 'C2H2O2', ('C C O H O H', 'H O C H O C', 'O C H C H O')),
+    ('CH3COF', 'C2H3FO', ('C O F C H H H', 'H C H F C O H')),
+    ('CH3Cl', 'CH3Cl', ('C Cl H H H', 'H Cl H C H')),
+    ('NaCl', 'ClNa', ('Na Cl', 'Cl Na')),
+    ('Si2H6', 'H6Si2', ('Si Si H H H H H H', 'H H Si H H H Si H')),
+    ('isobutane', 'C4H10', ('C C C C H H H H H H H H H H', 'H H C H H H C H H C C H H H')),
+    ('H atom', 'H', ('H',)),
+)
+
+
+def structure_obj(symbols, hill):
+    """an ase.Atoms as far as its composition goes: the chemical symbols (and atomic numbers) in the order the atoms
+    are listed, the formula in the documented modes.  Everything else a structure has is not modelled: the object is
+    open, so reaching for another accessor ends the analysis (exit 2) instead of being an AttributeError"""
+    o = Obj('atoms')
+
+    def formula(I_, ob, a, k):
+        k = dict(k)
+        mode = a[0] if a else k.pop('mode', 'hill')
+        if len(a) > 1 or (a and 'mode' in k):
+            raise Unsupported('Atoms.get_chemical_formula%r' % (tuple(a),))
+        if k.pop('empirical', False) is not False or k:
+            raise Unsupported('Atoms.get_chemical_formula(%s)' % ', '.join(sorted(k) or ['empirical']))
+        if mode == 'hill':
+            return hill
+        if mode == 'all':
+            return ''.join(symbols)
+        if mode == 'reduce':
+            out, i = '', 0
+            while i < len(symbols):
+                j = i
+                while j < len(symbols) and symbols[j] == symbols[i]:
+                    j += 1
+                out += symbols[i] + (str(j - i) if j - i > 1 else '')
+                i = j
+            return out
+        raise Unsupported('Atoms.get_chemical_formula(mode=%r)' % (mode,))
+    o.opaque_methods['get_chemical_formula'] = formula
+    o.opaque_methods['get_chemical_symbols'] = lambda I_, ob, a, k: ListV(list(symbols))
+    o.opaque_methods['get_atomic_numbers'] = lambda I_, ob, a, k: ListV([C(Z_OF[x]) for x in symbols])
+    o.opaque_methods['__len__'] = lambda I_, ob, a, k: C(len(symbols))
+    o.opaque_methods['get_global_number_of_atoms'] = lambda I_, ob, a, k: C(len(symbols))
+    return o
+
+
+def composition_from_atoms(run, repo):
+    """Molar mass and composition taken from a structure: M = sum over the atoms of the standard atomic weight of
+    their element (the table pmutt.constants.atomic_weight, folded from its literal here), elements = how many atoms
+    of each element there are - whatever order the atoms are listed in.  FreeTrans(atoms=...), StatMech(atoms=...)
+    and the usual StatMech(trans_model=FreeTrans, atoms=...) are built by their constructors for molecules of the G2
+    set in the bundled and in permuted orders (like atoms contiguous and not, one- and two-letter symbols, counts of
+    one and of two digits, formulas without carbon)."""
+    cm = repo.module('pmutt.constants')
+    node = cm.assigns.get('atomic_weight', [None])[-1]
+    if not isinstance(node, ast.Dict):
+        raise AnchorError('pmutt.constants.atomic_weight (a dict literal) not found')
+    run.table('constants.atomic_weight')
+    aw = {fold_value(cm, k): fold_num(cm, v).v for k, v in zip(node.keys, node.values)}
+    ci_t = repo.cls(SM + '.trans.FreeTrans')
+    ci_s = repo.cls(SM + '.StatMech')
+    o_t, f_t = repo.find_method(ci_t, '__init__')
+    o_s, f_s = repo.find_method(ci_s, '__init__')
+    run.fn(o_t.qual + '.__init__', o_s.qual + '.__init__')
+    n = 0
+    for mol, hill, orders in STRUCTURES:
+        for k_order, order in enumerate(orders):
+            symbols = order.split()
+            counts = {}
+            for x in symbols:
+                counts[x] = counts.get(x, 0) + 1
+            want_m = C(sum(Fr(aw[x]) for x in symbols))
+            key = '%s listed %s%s' % (mol, ''.join(symbols), '' if k_order == 0 else ' (permuted)')
+
+            def mass_ok(got):
+                return isinstance(got, Rat) and same(got, want_m)
+
+            def comp_ok(got):
+                if not isinstance(got, DictV) or sorted(got.d) != sorted(counts):
+                    return False
+                return all(isinstance(got.d[x], Rat) and same(got.d[x], C(counts[x])) for x in counts)
+            # FreeTrans(atoms=...)
+            I = Interp(repo)
+            ft = I.construct(ci_t, [], {'atoms': structure_obj(symbols, hill)}, name='trans')
+            got = ft if isinstance(ft, Raised) else get_public(I, ft, 'molecular_weight')
+            run.check(mass_ok(got), 'REF.molar-mass', 'FreeTrans.__init__', key,
+                      'FreeTrans(atoms=<%s, atoms listed as %s>).molecular_weight is %s, expected the sum of the '
+                      'atomic weights of its %d atoms = %s g/mol whatever order they are listed in'
+                      % (mol, ' '.join(symbols), show(got), len(symbols), show(want_m)), o_t.module, f_t,
+                      sample='FreeTrans(atoms=%s as %s).molecular_weight == %s' % (mol, ''.join(symbols),
+                                                                                   float(want_m.const_value()))
+                      if k_order else None, sig=lambda: 'M = %s' % show(got, 60))
+            n += 1
+            # StatMech(atoms=...): composition; StatMech(trans_model=FreeTrans, atoms=...): both
+            for with_trans in (False, True):
+                I = Interp(repo)
+                kw = {'atoms': structure_obj(symbols, hill)}
+                if with_trans:
+                    kw.update(trans_model=ci_t, n_degrees=C(3))
+                sm = I.construct(ci_s, [], kw, name='species')
+                what = 'StatMech(%satoms=<%s, atoms listed as %s>)' % ('trans_model=FreeTrans, ' if with_trans else '',
+                                                                      mol, ' '.join(symbols))
+                got = sm if isinstance(sm, Raised) else get_public(I, sm, 'elements')
+                run.check(comp_ok(got), 'REF.composition', 'StatMech.__init__',
+                          key + (' with FreeTrans' if with_trans else ''),
+                          '%s.elements is %s, expected %s whatever order the atoms are listed in'
+                          % (what, show(got), dict(sorted(counts.items()))), o_s.module, f_s)
+                n += 1
+                if with_trans:
+                    got = sm
+                    if not isinstance(sm, Raised):
+                        tm = get_public(I, sm, 'trans_model')
+                        got = get_public(I, tm, 'molecular_weight') if isinstance(tm, Obj) else tm
+                    run.check(mass_ok(got), 'REF.molar-mass', 'StatMech.__init__', key + ' with FreeTrans',
+                              '%s.trans_model.molecular_weight is %s, expected %s g/mol'
+                              % (what, show(got), show(want_m)), o_s.module, f_s, sig=lambda: 'M = %s' % show(got, 60))
+                    n += 1
     return n
 
 
@@ -1117,6 +1417,8 @@ def check(run, repo):
     debye(run, repo, I, store)
     n = ident(run, repo, I, store)
     run.floor('IDENT instances', n, 3)
+    n = hidden_state(run, repo, I, store)
+    run.floor('no-hidden-state instances', n, 300)
     n = aggregation(run, repo)
     run.floor('aggregation instances', n, 60)
     n = cached_fields(run, repo)
@@ -1126,6 +1428,8 @@ def check(run, repo):
     run.floor('collinearity instances', n, 40)
     n = rot_from_atoms(run, repo)
     run.floor('structure-derived rotational temperatures', n, 16)
+    n = composition_from_atoms(run, repo)
+    run.floor('structure-derived molar mass and composition', n, 60)
 
 
 V = 'pmutt/statmech/vib.py'
